@@ -406,6 +406,22 @@ func (c PageCase) toApp() *app.App {
 	return a
 }
 
+// toAppLang: the page set-up as node "main" below a plain root, next to a node that
+// switches the session to language nor, in which labels resolve to the given texts.
+func (c PageCase) toAppLang(labels map[string]string) *app.App {
+	a := &app.App{Menus: map[string]string{}}
+	a.Cfg.OutputSize = c.Size
+	a.Cfg.MenuSeparator = c.Sep
+	a.Nodes = []app.Node{{Name: "root", Tpl: "top", Code: []app.Instr{{Op: refdec.HALT},
+		{Op: refdec.INCMP, Sym: "lang", Sel: "l"}, {Op: refdec.INCMP, Sym: "main", Sel: "m"}, {Op: refdec.INCMP, Sym: ".", Sel: "*"}}},
+		{Name: "lang", Tpl: "", Code: []app.Instr{{Op: refdec.LOAD, Sym: "setlang", Num: 0}, {Op: refdec.MOVE, Sym: "_"}}}}
+	a.Syms = append(a.Syms, app.Sym{Name: "setlang", Results: []app.Result{{Content: "nor", FlagSet: []uint32{7}}}})
+	c.addNode(a, "main", "", "bk")
+	a.Nodes = append(a.Nodes, catchNode)
+	a.Trans = []app.Trans{{Lang: "nor", Menus: labels}}
+	return a
+}
+
 // toAppAfter: the page set-up as node "main" below a plain root, next to another paged
 // node "other" (the set-up before) that the session visits first.
 func (c PageCase) toAppAfter(before PageCase) *app.App {
@@ -429,6 +445,10 @@ type C02Engine struct {
 	// engine must not reach the next node's)
 	Before     *PageCase `json:"before,omitempty"`
 	BeforeNext int       `json:"before_next,omitempty"`
+	// LangLabels: the session first browses the node in the default language (BeforeNext
+	// pages), leaves it, switches to a language in which these label symbols resolve to
+	// these texts, and only then does the walk that is judged (with the translated texts)
+	LangLabels map[string]string `json:"lang_labels,omitempty"`
 }
 
 func checkC02Engine(c C02Engine) (o Outcome) {
@@ -452,8 +472,47 @@ func checkC02Engine(c C02Engine) (o Outcome) {
 	if c.Before != nil {
 		theApp = pc.toAppAfter(*c.Before)
 		enter = "m"
+	} else if c.LangLabels != nil {
+		theApp = pc.toAppLang(c.LangLabels)
+		enter = "m"
 	}
 	s := app.NewSession(app.NewShared(theApp), c.Mode, storage)
+	if c.Before == nil && c.LangLabels != nil {
+		ins := []string{"", "m"}
+		for i := 0; i < c.BeforeNext; i++ {
+			ins = append(ins, pc.Next.Sel)
+		}
+		ins = append(ins, "bk", "l")
+		var after *app.Snapshot
+		for i := 0; i < len(ins)+3; i++ {
+			in := "bk"
+			if i < len(ins) {
+				in = ins[i]
+			} else if after != nil && len(after.Path) == 1 {
+				break
+			}
+			st := s.Request([]byte(in))
+			after = st.After
+			if st.Panic != "" || (!st.Cont && st.ExecErr == "") {
+				o.Discard = "visit-before-fails"
+				return
+			}
+		}
+		if after == nil || len(after.Path) != 1 || after.Lang != "nor" {
+			o.Discard = "language-switch-does-not-return"
+			return
+		}
+		// from here on the labels resolve to the translated texts
+		lab := map[string]string{}
+		for k, v := range pc.Labels {
+			lab[k] = v
+		}
+		for k, v := range c.LangLabels {
+			lab[k] = v
+		}
+		pc.Labels = lab
+		o.class("walk-after-language-switch")
+	}
 	if c.Before != nil {
 		// visit the other node first
 		ins := []string{"", "o"}
@@ -576,11 +635,25 @@ func TestC02(t *testing.T) {
 		pc := genPageCase(t, pageGenOpts{sink: true})
 		pc.Err = ""
 		c := C02Engine{Page: pc, Mode: []app.Mode{{Kind: "long"}, {Kind: "persist", Backend: "mem"}}[uniformN(t, 2, "mode")]}
-		if chancePct(t, 35, "before") {
+		switch k := uniformN(t, 20, "variant"); {
+		case k < 7:
 			b := genPageCase(t, pageGenOpts{sink: true})
 			b.Err = ""
 			b.Size = pc.Size
 			c.Before, c.BeforeNext = &b, uniformN(t, 4, "beforenext")
+		case k < 11 && pc.Next != nil:
+			// translated label texts of other lengths for the browse entries and some menu labels
+			c.LangLabels = map[string]string{}
+			syms := []string{"to_next", "to_prev"}
+			for _, m := range pc.Menu {
+				syms = append(syms, m.Label)
+			}
+			for _, sym := range syms {
+				if chancePct(t, 70, "translated") {
+					c.LangLabels[sym] = genRowText(t, rapid.IntRange(1, 20).Draw(t, "trlen"))
+				}
+			}
+			c.BeforeNext = uniformN(t, 3, "beforenext")
 		}
 		return c
 	}, checkC02Engine)
